@@ -220,7 +220,9 @@ def c02_forms(extended):
     add("r", "invoke(echo_int, std::string)", "std::string s = \"x\"; sink(e, Wd::invoke<int(int)>(e.sb, \"echo_int\", s));")
     add("r", "invoke(echo_int, struct by value unwrapped)", "PS s{ 1, 'a', e.raw() }; sink(e, Wd::invoke<int(PS)>(e.sb, \"echo_int\", s));")
     # callback signatures
-    for nm in ["cb_noparam", "cb_wrongsbx", "cb_plainparam", "cb_arrayparam", "cb_plainret", "cb_refparam", "cb_rawptrret", "cb_secondsbx", "cb_plainptrparam"]:
+    for nm in ["cb_noparam", "cb_wrongsbx", "cb_plainparam", "cb_arrayparam", "cb_plainret", "cb_refparam", "cb_rawptrret", "cb_secondsbx", "cb_plainptrparam",
+               "cb_constrefparam", "cb_opaquerefparam", "cb_opaquemutrefparam", "cb_opaquervalrefparam", "cb_opaqueptrrefparam", "cb_opaquerefret", "cb_constrefret",
+               "cb_sbxbyvalue", "cb_volatileparam"]:
         add("r", "register_callback(%s)" % nm, "auto c = e.sb.register_callback(%s); sink_cb(e, c);" % nm)
     add("g", "register_callback(well-formed) control", "auto c = e.sb.register_callback(cb_good2); sink_cb(e, c);")
     add("g", "register_callback(opaque params) control", "auto c = e.sb.register_callback(cb_good_opaque); sink_cb(e, c);")
